@@ -348,6 +348,65 @@ func runC09(c *core.Ctx) {
 		})
 	}
 
+	c.Rule("C09.childreset", "a container assembler of bindnode that hands out a child assembler it keeps inside itself (a reused field such as curKey) resets that child completely first: on every path to the return either the whole child struct is overwritten, or every one of its fields is stored - otherwise state of the previous entry (nullable, finish hook, schema type) carries over into the next entry and changes what it accepts", 3)
+	for _, fn := range p.ModFns {
+		pk := core.FuncPkg(fn)
+		if pk == nil || core.RelPkg(pk.Path()) != "node/bindnode" || len(fn.Blocks) == 0 || fn.Synthetic != "" {
+			continue
+		}
+		if fn.Name() != "AssembleKey" && fn.Name() != "AssembleValue" {
+			continue
+		}
+		for _, ret := range core.Returns(fn) {
+			for _, v := range core.ResultValues(ret, 0) {
+				mi, ok := v.(*ssa.MakeInterface)
+				if !ok {
+					continue
+				}
+				fa, ok := mi.X.(*ssa.FieldAddr)
+				if !ok {
+					continue
+				}
+				if _, isParam := fa.X.(*ssa.Parameter); !isParam {
+					continue
+				}
+				st, _ := fa.Type().(*types.Pointer).Elem().Underlying().(*types.Struct)
+				if st == nil {
+					continue
+				}
+				sameChild := func(a ssa.Value) bool {
+					x, ok := a.(*ssa.FieldAddr)
+					return ok && x.X == fa.X && x.Field == fa.Field
+				}
+				whole := func(in ssa.Instruction) bool {
+					s2, ok := in.(*ssa.Store)
+					return ok && sameChild(s2.Addr)
+				}
+				var missing []string
+				if _, reached := core.Reach(fn, nil, isTarget(ret), nil, whole); reached {
+					for i := 0; i < st.NumFields(); i++ {
+						fi := i
+						fieldStore := func(in ssa.Instruction) bool {
+							if whole(in) {
+								return true
+							}
+							s2, ok := in.(*ssa.Store)
+							if !ok {
+								return false
+							}
+							inner, ok := s2.Addr.(*ssa.FieldAddr)
+							return ok && inner.Field == fi && sameChild(inner.X)
+						}
+						if _, r := core.Reach(fn, nil, isTarget(ret), nil, fieldStore); r {
+							missing = append(missing, st.Field(i).Name())
+						}
+					}
+				}
+				c.Check(len(missing) == 0, fmt.Sprintf("%s#reused-child:%s", core.FuncKey(fn), core.FieldName(fa)), p.Pos(ret.Pos()), "reused child assembler is fully reset before it is handed out", fmt.Sprintf("the reused child assembler %s is handed out without its field(s) %v having been reset on every path: what the previous entry left there decides what this entry accepts", core.FieldName(fa), missing))
+			}
+		}
+	}
+
 	c.Rule("C09.kindgate", "in every scalar Assign* method of the reflection assembler (bindnode._assembler: AssignBool/Int/Float/String/Bytes, assignUInt) each mutation of the bound Go value (reflect.Value.Set*, createNonPtrVal) is dominated by the nil edge of the kind-compatibility check's result", 6)
 	asmT := p.NamedType("node/bindnode", "_assembler")
 	if asmT == nil {
